@@ -183,35 +183,38 @@ def proxyYear (year : Int) : Int :=
 
 def timeUs (hour minute second micro : Int) : Int := ((hour * 60 + minute) * 60 + second) * 1000000 + micro
 
+/-- the second half of `__init__` (datetime.py:186-206): the proxy `datetime.datetime` is built from the
+(possibly rolled-over) fields, `addDay` = `delta` is one day (the `24:00:00` form) -/
+def mkCore (year month day hour minute second micro : Int) (addDay : Bool) (tz : Option Int) : Except Err DT :=
+  if 1 ≤ year ∧ year ≤ 9999 then
+    if !pyFieldsOk (isleap year) month day hour minute second micro then .error .value
+    else if addDay then
+      -- `self._dt += delta` (one day); cannot leave 1..9999: 9999-12-31 was rolled over by the caller
+      match pyOfOrdUs (pyOrdUs year month day (timeUs hour minute second micro) + US) with
+      | .ok (y, m, d, us) => .ok ⟨y, m, d, us, tz⟩
+      | .error e => .error e
+    else .ok ⟨year, month, day, timeUs hour minute second micro, tz⟩
+  else if year = 0 then .error .value
+  else if year.natAbs > 2 ^ 31 then .error .overflow
+  else
+    let lp := proxyLeap year
+    if !pyFieldsOk lp month day hour minute second micro then .error .value
+    else if addDay then
+      -- the proxy datetime (year 4 or 6) plus one day; never the 31st of December here
+      match pyOfOrdUs (pyOrdUs (if lp then 4 else 6) month day (timeUs hour minute second micro) + US) with
+      | .ok (_, m, d, us) => .ok ⟨year, m, d, us, tz⟩
+      | .error e => .error e
+    else .ok ⟨year, month, day, timeUs hour minute second micro, tz⟩
+
 /-- `AbstractDateTime.__init__(year, month, day, hour, minute, second, microsecond, tzinfo)`
-(datetime.py:168-206 with the 24:00:00 fix) -/
+(datetime.py:168-206 with the 24:00:00 fix): the `24:00:00` form is the first instant of the next day;
+on a 31st of December outside years 0..9998 the year is advanced here (no year 0: -1 is followed by 1) -/
 def mk (year month day hour minute second micro : Int) (tz : Option Int) : Except Err DT :=
   let is24 := hour == 24 && minute == 0 && second == 0 && micro == 0
   let hour := if is24 then 0 else hour
   let roll := is24 && month == 12 && day == 31 && !(decide (0 ≤ year) && decide (year < 9999))
-  let year' := if roll then (if year == -1 then 1 else year + 1) else year
-  let month' := if roll then 1 else month
-  let day' := if roll then 1 else day
-  let addDay := is24 && !roll
-  if 1 ≤ year' ∧ year' ≤ 9999 then
-    if !pyFieldsOk (isleap year') month' day' hour minute second micro then .error .value
-    else if addDay then
-      -- `self._dt += delta` (one day); cannot leave 1..9999: 9999-12-31 was rolled above
-      match pyOfOrdUs (pyOrdUs year' month' day' (timeUs hour minute second micro) + US) with
-      | .ok (y, m, d, us) => .ok ⟨y, m, d, us, tz⟩
-      | .error e => .error e
-    else .ok ⟨year', month', day', timeUs hour minute second micro, tz⟩
-  else if year' = 0 then .error .value
-  else if year'.natAbs > 2 ^ 31 then .error .overflow
-  else
-    let lp := proxyLeap year'
-    if !pyFieldsOk lp month' day' hour minute second micro then .error .value
-    else if addDay then
-      -- the proxy datetime (year 4 or 6) plus one day; never the 31st of December here
-      match pyOfOrdUs (pyOrdUs (if lp then 4 else 6) month' day' (timeUs hour minute second micro) + US) with
-      | .ok (_, m, d, us) => .ok ⟨year', m, d, us, tz⟩
-      | .error e => .error e
-    else .ok ⟨year', month', day', timeUs hour minute second micro, tz⟩
+  if roll then mkCore (if year == -1 then 1 else year + 1) 1 1 hour minute second micro false tz
+  else mkCore year month day hour minute second micro is24 tz
 
 /-- `mk` from a µs-of-day (what `fromdelta` and `_operation` pass on: the fields of a proxy datetime) -/
 def mkUs (year month day us : Int) (tz : Option Int) : Except Err DT :=
@@ -350,6 +353,16 @@ def adjustDateTime (a : DT) (tz : Option Int) : Except Err DT :=
     let x ← todelta a
     let delta ← tdNorm (x + z * UM)
     let v ← fromdelta false delta
+    pure { v with tz := some z }
+  | _, _ => .ok { a with tz := tz }
+
+/-- `adjust_datetime` for `xs:date` (xpath_tokens/base.py:700-752 with the adjust-date fix): the date is
+moved by the difference of the two offsets with the `Date + DayTimeDuration` arithmetic -/
+def adjustDate (a : DT) (tz : Option Int) : Except Err DT :=
+  match a.tz, tz with
+  | some z0, some z => do
+    -- `_item += DayTimeDuration(seconds=int((timezone.offset - _tzinfo.offset).total_seconds()))`
+    let v ← addDur true a ((z - z0) * UM) false
     pure { v with tz := some z }
   | _, _ => .ok { a with tz := tz }
 
